@@ -92,64 +92,174 @@ void h_numbers_protocol(void) {
 }
 
 /* ======================================================================
- * ver.find - find_file is a lower bound (C01, C14), any list length
+ * Shared bounded model of a version (used by ver.find ... ver.live)
  * ======================================================================
- * Model: the list elements live in one array `ff_metas` in list order
- * (items[i] == &ff_metas[i]; find_file never compares or dereferences the
- * element pointers, so the layout is without loss of generality).  The
- * comparator is an oracle that is *partitioned* at the ghost position ff_lb:
- * largest(files[i]) < key  iff  i < ff_lb.  That is exactly what "sorted by
- * largest under a consistent comparator" gives for one probe key (the
- * precondition of a lower-bound search).  The contract: the result is ff_lb.
+ * Real comparators: the byte-wise user comparator (util/comparator.c) and the
+ * internal-key comparator (dbformat.c) are included unmodified.  User keys
+ * are one byte wide; an internal key is the 9 bytes  uk ‖ LE64(seq<<8|type).
+ * The harness builds every key from a (uk, tag) pair of ghost scalars and
+ * stores the bytes itself (mk_ikey); the specifications are written on the
+ * ghost scalars, independently of the comparators:
+ *    a <_ik b  iff  uk(a) < uk(b), or uk(a) = uk(b) and tag(a) > tag(b).
+ * Contracts identify their arguments with the model objects (g_ver, level).
  */
-static ldb_filemeta_t *ff_metas;
-static size_t ff_n, ff_lb;
-static const ldb_slice_t *ff_key;
-static const ldb_comparator_t *ff_icmp;
-static int ff_eq;   /* whether files[ff_lb].largest == key (compare returns 0) */
-static size_t ff_calls;
+#include "util/comparator.c"
+#include "dbformat.c"
 
-static int ff_compare(const ldb_comparator_t *c, const ldb_slice_t *x, const ldb_slice_t *y) {
-  size_t off, m;
-  __CPROVER_assert(c == ff_icmp, "find_file: compares with the comparator it was given");
-  __CPROVER_assert(y == ff_key, "find_file: probe key is the right operand");
-  __CPROVER_assert(__CPROVER_same_object(x, ff_metas), "find_file: left operand is a key of a list element");
-  off = (size_t)((const char *)x - (const char *)ff_metas);
-  m = off / sizeof(ldb_filemeta_t);
-  __CPROVER_assert(off % sizeof(ldb_filemeta_t) == offsetof(ldb_filemeta_t, largest) && m < ff_n,
-                   "find_file: compares the *largest* key of an element inside the list");
-  ff_calls++;
-  if (m < ff_lb) return -1;
-  if (m == ff_lb && ff_eq) return 0;
-  return 1;
+#define MAXF 6
+static uint8_t g_ks[LDB_NUM_LEVELS][MAXF][9], g_kl[LDB_NUM_LEVELS][MAXF][9]; /* key bytes */
+static uint8_t g_suk[LDB_NUM_LEVELS][MAXF], g_luk[LDB_NUM_LEVELS][MAXF];     /* ghost: user key of smallest / largest */
+static uint64_t g_stag[LDB_NUM_LEVELS][MAXF], g_ltag[LDB_NUM_LEVELS][MAXF];  /* ghost: seq<<8|type of smallest / largest */
+static uint64_t g_num[LDB_NUM_LEVELS][MAXF], g_fsz[LDB_NUM_LEVELS][MAXF];    /* ghost: file number, size */
+static size_t g_n[LDB_NUM_LEVELS];                                            /* ghost: files per level */
+static ldb_filemeta_t g_fm[LDB_NUM_LEVELS][MAXF];
+static void *g_items[LDB_NUM_LEVELS][MAXF];
+static ldb_version_t g_ver;
+static ldb_dbopt_t g_opt;
+
+#define LT_(uk1, t1, uk2, t2) ((uk1) < (uk2) || ((uk1) == (uk2) && (t1) > (t2)))
+#define LE_(uk1, t1, uk2, t2) (!LT_(uk2, t2, uk1, t1))
+
+static void mk_ikey(ldb_buffer_t *b, uint8_t *st, uint8_t uk, uint64_t tag) {
+  st[0] = uk;
+  st[1] = (uint8_t)tag; st[2] = (uint8_t)(tag >> 8); st[3] = (uint8_t)(tag >> 16); st[4] = (uint8_t)(tag >> 24);
+  st[5] = (uint8_t)(tag >> 32); st[6] = (uint8_t)(tag >> 40); st[7] = (uint8_t)(tag >> 48); st[8] = (uint8_t)(tag >> 56);
+  b->data = st; b->size = 9; b->alloc = 0;
 }
+static void mk_file(int level, size_t i) {
+  ldb_filemeta_t *f = &g_fm[level][i];
+  g_suk[level][i] = nondet_u8(); g_luk[level][i] = nondet_u8();
+  g_stag[level][i] = nondet_u64(); g_ltag[level][i] = nondet_u64();
+  g_num[level][i] = nondet_u64(); g_fsz[level][i] = nondet_u64();
+  f->refs = 1; f->allowed_seeks = nondet_int(); f->number = g_num[level][i]; f->file_size = g_fsz[level][i];
+  mk_ikey(&f->smallest, g_ks[level][i], g_suk[level][i], g_stag[level][i]);
+  mk_ikey(&f->largest, g_kl[level][i], g_luk[level][i], g_ltag[level][i]);
+  g_items[level][i] = f;
+}
+/* n files with arbitrary keys, numbers and sizes in `level` (n <= MAXF) */
+static void mk_level(int level, size_t n) {
+  if (n > 0) mk_file(level, 0);
+  if (n > 1) mk_file(level, 1);
+  if (n > 2) mk_file(level, 2);
+  if (n > 3) mk_file(level, 3);
+  if (n > 4) mk_file(level, 4);
+  if (n > 5) mk_file(level, 5);
+  g_n[level] = n;
+  g_ver.files[level].items = g_items[level];
+  g_ver.files[level].length = n;
+  g_ver.files[level].alloc = MAXF;
+}
+static void mk_empty(int l) { g_n[l] = 0; g_ver.files[l].items = g_items[l]; g_ver.files[l].length = 0; g_ver.files[l].alloc = MAXF; }
+static void mk_version(void) {
+  g_opt.max_file_size = nondet_size();
+  g_vset.options = &g_opt;
+  g_vset.table_cache = NULL;
+  ldb_ikc_init(&g_vset.icmp, &bytewise_comparator);
+  g_ver.vset = &g_vset; g_ver.next = &g_ver; g_ver.prev = &g_ver; g_ver.refs = 1;
+  g_ver.file_to_compact = NULL; g_ver.file_to_compact_level = -1;
+  mk_empty(0); mk_empty(1); mk_empty(2); mk_empty(3); mk_empty(4); mk_empty(5); mk_empty(6);
+}
+/* levels > 0: files sorted and disjoint as internal-key ranges */
+#define DISJ_AT(l, i) (((i) >= g_n[l] || LE_(g_suk[l][i], g_stag[l][i], g_luk[l][i], g_ltag[l][i])) && \
+                       ((i) + 1 >= g_n[l] || LT_(g_luk[l][i], g_ltag[l][i], g_suk[l][(i) + 1], g_stag[l][(i) + 1])))
+#define DISJOINT_SORTED(l) (DISJ_AT(l,0) && DISJ_AT(l,1) && DISJ_AT(l,2) && DISJ_AT(l,3) && DISJ_AT(l,4) && DISJ_AT(l,5))
+
+/* ======================================================================
+ * ver.find - find_file is a lower bound on `largest` (C01, C14); n <= 6
+ * ====================================================================== */
+static int g_lvl;             /* the level whose vector is passed */
+static ldb_buffer_t g_key; static uint8_t g_key_b[9]; static uint8_t g_kuk; static uint64_t g_ktag;  /* probe key + ghost */
+#define SORTED_L_AT(l, i) ((i) + 1 >= g_n[l] || LE_(g_luk[l][i], g_ltag[l][i], g_luk[l][(i) + 1], g_ltag[l][(i) + 1]))
+#define SORTED_BY_LARGEST(l) (SORTED_L_AT(l,0) && SORTED_L_AT(l,1) && SORTED_L_AT(l,2) && SORTED_L_AT(l,3) && SORTED_L_AT(l,4))
+/* r is the smallest index with key <=_ik largest(files[r]), or n */
+#define POST_FIND(r, l) ((r) >= 0 && (size_t)(r) <= g_n[l] && \
+  ((size_t)(r) == g_n[l] || LE_(g_kuk, g_ktag, g_luk[l][r], g_ltag[l][r])) && \
+  ((r) == 0 || LT_(g_luk[l][(r) - 1], g_ltag[l][(r) - 1], g_kuk, g_ktag)))
 
 int c_find_file(const ldb_comparator_t *icmp, const ldb_vector_t *files, const ldb_slice_t *key)
-__CPROVER_requires(__CPROVER_r_ok(files, sizeof(*files)) && __CPROVER_r_ok(icmp, sizeof(*icmp)))
-__CPROVER_requires(icmp == ff_icmp && key == ff_key && icmp->compare == ff_compare)
-__CPROVER_requires(files->length == ff_n && ff_n <= 2147483647 && ff_lb <= ff_n)
-__CPROVER_requires(ff_n == 0 || __CPROVER_r_ok(files->items, ff_n * sizeof(void *)))
-__CPROVER_requires(ff_n == 0 || __CPROVER_r_ok(ff_metas, ff_n * sizeof(ldb_filemeta_t)))
-__CPROVER_requires(__CPROVER_forall { size_t i; (i < ff_n) ==> files->items[i] == (void *)(ff_metas + i) })
-__CPROVER_assigns(ff_calls)
-__CPROVER_ensures(__CPROVER_return_value >= 0 && (size_t)__CPROVER_return_value == ff_lb)
+__CPROVER_requires(icmp == &g_vset.icmp && g_lvl >= 0 && g_lvl < LDB_NUM_LEVELS && files == &g_ver.files[g_lvl] && key == &g_key)
+__CPROVER_requires(g_n[g_lvl] <= MAXF && SORTED_BY_LARGEST(g_lvl))
+__CPROVER_assigns()
+__CPROVER_ensures(POST_FIND(__CPROVER_return_value, g_lvl))
 ;
 
 void h_find_file(void) {
-  ldb_comparator_t icmp;
-  ldb_vector_t files;
-  ldb_slice_t key;
-  IN_SIZE(in_n); IN_SIZE(in_lb); IN_INT(in_eq);
-  ASSUME(in_n <= 2147483647 && in_lb <= in_n);
-  ff_n = in_n; ff_lb = in_lb; ff_eq = in_eq; ff_calls = 0;
-  ff_metas = malloc(in_n * sizeof(ldb_filemeta_t));
-  files.items = malloc(in_n * sizeof(void *));
-  ASSUME(ff_metas != NULL && files.items != NULL);
-  files.length = in_n; files.alloc = in_n;
-  icmp.name = "x"; icmp.compare = ff_compare; icmp.shortest_separator = NULL; icmp.short_successor = NULL;
-  icmp.user_comparator = NULL; icmp.state = NULL;
-  ff_icmp = &icmp; ff_key = &key;
-  key.data = NULL; key.size = 0; key.alloc = 0;
-  find_file(&icmp, &files, &key);
+  IN_SIZE(in_n);
+  ASSUME(in_n <= MAXF);
+  mk_version(); mk_level(1, in_n); g_lvl = 1;
+  g_kuk = nondet_u8(); g_ktag = nondet_u64(); mk_ikey(&g_key, g_key_b, g_kuk, g_ktag);
+  find_file(&g_vset.icmp, &g_ver.files[1], &g_key);
+  CANARY();
+}
+
+/* ======================================================================
+ * ver.overlap - closed-interval overlap on user keys (C01, C14); n <= 4
+ * ====================================================================== */
+#define OVF 4
+static uint8_t g_lo_b[1], g_hi_b[1];
+static ldb_slice_t g_lo, g_hi;
+static int g_has_lo, g_has_hi;   /* 0: the bound is NULL = -infinity / +infinity */
+static uint8_t g_lo_v, g_hi_v;
+#define LO_PTR (g_has_lo ? &g_lo : (const ldb_slice_t *)NULL)
+#define HI_PTR (g_has_hi ? &g_hi : (const ldb_slice_t *)NULL)
+/* file i of level l overlaps [lo, hi] (closed, on user keys) */
+#define SPEC_OV_AT(l, i) ((i) < g_n[l] && !(g_has_lo && g_lo_v > g_luk[l][i]) && !(g_has_hi && g_hi_v < g_suk[l][i]))
+#define SPEC_OVERLAP(l) (SPEC_OV_AT(l,0) || SPEC_OV_AT(l,1) || SPEC_OV_AT(l,2) || SPEC_OV_AT(l,3))
+
+/* after_file / before_file: the key is passed as "lo" resp. "hi"; file = g_fm[g_lvl][0] */
+int c_after_file(const ldb_comparator_t *ucmp, const ldb_slice_t *user_key, const ldb_filemeta_t *f)
+__CPROVER_requires(ucmp == &bytewise_comparator && user_key == LO_PTR && g_lvl >= 0 && g_lvl < LDB_NUM_LEVELS && f == &g_fm[g_lvl][0])
+__CPROVER_assigns()
+__CPROVER_ensures(__CPROVER_return_value == ((g_has_lo && g_lo_v > g_luk[g_lvl][0]) ? 1 : 0))
+;
+int c_before_file(const ldb_comparator_t *ucmp, const ldb_slice_t *user_key, const ldb_filemeta_t *f)
+__CPROVER_requires(ucmp == &bytewise_comparator && user_key == HI_PTR && g_lvl >= 0 && g_lvl < LDB_NUM_LEVELS && f == &g_fm[g_lvl][0])
+__CPROVER_assigns()
+__CPROVER_ensures(__CPROVER_return_value == ((g_has_hi && g_hi_v < g_suk[g_lvl][0]) ? 1 : 0))
+;
+int c_some_file_overlaps_range(const ldb_comparator_t *icmp, int disjoint_sorted_files, const ldb_vector_t *files,
+                               const ldb_slice_t *smallest_user_key, const ldb_slice_t *largest_user_key)
+__CPROVER_requires(icmp == &g_vset.icmp && g_lvl >= 0 && g_lvl < LDB_NUM_LEVELS && files == &g_ver.files[g_lvl])
+__CPROVER_requires(smallest_user_key == LO_PTR && largest_user_key == HI_PTR && g_n[g_lvl] <= OVF)
+__CPROVER_requires(disjoint_sorted_files ==> DISJOINT_SORTED(g_lvl))
+__CPROVER_assigns()
+__CPROVER_ensures(__CPROVER_return_value == (SPEC_OVERLAP(g_lvl) ? 1 : 0))
+;
+int c_version_overlap_in_level(ldb_version_t *ver, int level, const ldb_slice_t *smallest_user_key, const ldb_slice_t *largest_user_key)
+__CPROVER_requires(ver == &g_ver && level >= 0 && level < LDB_NUM_LEVELS && g_n[level] <= OVF)
+__CPROVER_requires(smallest_user_key == LO_PTR && largest_user_key == HI_PTR)
+__CPROVER_requires(level > 0 ==> DISJOINT_SORTED(level))
+__CPROVER_assigns()
+__CPROVER_ensures(__CPROVER_return_value == (SPEC_OVERLAP(level) ? 1 : 0))
+;
+
+static void mk_bounds(void) {
+  g_has_lo = nondet_int() ? 1 : 0; g_has_hi = nondet_int() ? 1 : 0;
+  g_lo_v = nondet_u8(); g_hi_v = nondet_u8();
+  g_lo_b[0] = g_lo_v; g_lo.data = g_lo_b; g_lo.size = 1; g_lo.alloc = 0;
+  g_hi_b[0] = g_hi_v; g_hi.data = g_hi_b; g_hi.size = 1; g_hi.alloc = 0;
+}
+void h_after_file(void) {
+  mk_version(); mk_level(1, 1); g_lvl = 1; mk_bounds();
+  after_file(&bytewise_comparator, LO_PTR, &g_fm[1][0]);
+  CANARY();
+}
+void h_before_file(void) {
+  mk_version(); mk_level(1, 1); g_lvl = 1; mk_bounds();
+  before_file(&bytewise_comparator, HI_PTR, &g_fm[1][0]);
+  CANARY();
+}
+void h_some_file_overlaps(void) {
+  IN_SIZE(in_n); IN_INT(in_disjoint);
+  ASSUME(in_n <= OVF);
+  mk_version(); mk_level(1, in_n); g_lvl = 1; mk_bounds();
+  some_file_overlaps_range(&g_vset.icmp, in_disjoint, &g_ver.files[1], LO_PTR, HI_PTR);
+  CANARY();
+}
+void h_overlap_in_level(void) {
+  IN_SIZE(in_n); IN_INT(in_level);
+  ASSUME(in_n <= OVF && in_level >= 0 && in_level < LDB_NUM_LEVELS);
+  mk_version(); mk_level(in_level, in_n); mk_bounds();
+  ldb_version_overlap_in_level(&g_ver, in_level, LO_PTR, HI_PTR);
   CANARY();
 }
